@@ -17,6 +17,8 @@ struct SmartObject_
 {
 	AtomicCount rc;
 	SmartObject_() {}
+	SmartObject_(const SmartObject_&) {} // a copy (clone) is a new object: it starts with no references
+	SmartObject_& operator=(const SmartObject_&) { return *this; } // assigning the contents keeps this object's own count
 	virtual ~SmartObject_() {}
 	virtual SmartObject_* clone() const { return new SmartObject_(*this); }
 };
